@@ -164,6 +164,10 @@ package tglib
 // is C13 (builders proved, wrappers bounded).  Here they return octets or an error, and record what
 // they were asked for in the ghost log "ngap.built"; the protection entry point records the header
 // type and the context flags in "nas.protect".
+// Dialling the association is outside the subset: a connection or an error.
+//@ func ConnectToAmf
+//@ trusted
+//@ ensures either: result0 != nil || result1 != nil
 //@ func GetNGSetupRequest
 //@ trusted
 //@ ghostlog ngap.built: trace.Rec(trace.NGSetupRequest, int64(bitlength), 0, 0)
